@@ -1,5 +1,6 @@
 import ServiceModel.Proofs.Reachable
 import ServiceModel.Proofs.CtxOrigin
+import ServiceModel.Proofs.OneShot
 /-!
 # C10 — Repeated invocations keep their cadence and respect their total (state part)
 -/
@@ -89,5 +90,12 @@ theorem no_batch_beyond_total (s : State) (c : CtxId) (x : Ctx) (hq : (s.height,
 theorem batches_never_exceed_total (hc : CfgOK cfg p) {s : State} (hr : Reachable cfg p h0 t0 s)
     (c : CtxId) (x : Ctx) (hx : Map.get s.ctxs c = some x) (hrep : x.rep = true) (hpos : 0 < x.total) :
     (x.batch : Int) ≤ x.total := totBounded hc hr c x hx hrep hpos
+
+/-- Over every history: a one-shot (non-repeated) context never gets more than one batch — an invariant of all
+    reachable states; its counter is still 0 while it waits for its batch or is paused for lack of funds. -/
+theorem one_shot_at_most_one_batch (hc : CfgOK cfg p) {s : State} (hr : Reachable cfg p h0 t0 s)
+    (c : CtxId) (x : Ctx) (hx : Map.get s.ctxs c = some x) (hrep : x.rep = false) :
+    x.batch ≤ 1 ∧ (((Map.get s.newH c).isSome ∨ x.state = .paused) → x.batch = 0) :=
+  kinv_reachable hc hr c x hx hrep
 
 end SM.C10
